@@ -38,7 +38,8 @@ PullIt == [k |-> "pullit", id |-> 0]
 YFromIt == [k |-> "yfromit"]
 AYf == [simple |-> {Eff, Y(VarA), PullIt, YFromIt} \cup YFs,
         inits |-> {None}, posts |-> {None} \cup YFs, conds |-> {T0},
-        ifinits |-> {None}, kinds |-> {"if", "switch", "for"}, jumps |-> {"break", "continue"}, ranges |-> {}]
+        ifinits |-> {None}, kinds |-> {"if", "switch", "for"}, jumps |-> {"break", "continue"}, ranges |-> {},
+        swinits |-> {None, YF(2, VarA)}]      \* switch YieldFrom(D2(r, a, b)); r.T(id) { .. }
 \* delegation family without the recursive delegate: bounded delegation depth (C17 loop cases)
 YFsL == {YF(g, arg) : g \in 2..3, arg \in {[k |-> "lit", v |-> 1], VarA}}
 \* independence of iterators held by ONE generator (C14): the local iterator `it`, delegates created by
@@ -85,7 +86,8 @@ AExpr == [simple |-> {Eff, IncA, IncQ, Y(QV)} \cup {Y(e) : e \in Exprs},
 \* jumps in depth: only what interacts with break / continue (loops with and without a yielding
 \* post statement, switch, if), so that nesting depth 4-5 is exhaustively reachable
 AJump == [simple |-> {Y(Lit0)}, inits |-> {None}, posts |-> {None, Y(Lit0)}, conds |-> {T0},
-          ifinits |-> {None}, kinds |-> {"if", "switch", "for"}, jumps |-> {"break", "continue"}, ranges |-> {}]
+          ifinits |-> {None}, kinds |-> {"if", "switch", "for"}, jumps |-> {"break", "continue"}, ranges |-> {},
+          swinits |-> {None, Y(Lit0)}]        \* switch Yield(v); r.T(id) { .. }
 \* closures of eta shape (C07 / C13): function variable as loop condition that the body reassigns, method
 \* value whose receiver variable is reassigned, wrappers around a package function, a generic instance,
 \* a builtin and a conversion
